@@ -19,9 +19,15 @@ def _src(n):
     return ast.unparse(n)
 
 
+_PARSED = {}
+
+
 def _classes(path):
-    tree = ast.parse(open(path).read(), filename=path)
-    return {n.name: n for n in ast.walk(tree) if isinstance(n, ast.ClassDef)}
+    key = (path, os.path.getmtime(path))
+    if key not in _PARSED:
+        tree = ast.parse(open(path).read(), filename=path)
+        _PARSED[key] = {n.name: n for n in ast.walk(tree) if isinstance(n, ast.ClassDef)}
+    return _PARSED[key]
 
 
 def _is_setter(fn):
@@ -124,3 +130,177 @@ if __name__ == "__main__":
     import json
     import sys
     print(json.dumps(audit(sys.argv[1] if len(sys.argv) > 1 else "/repo"), indent=1))
+
+
+# ---------------------------------------------------------------------------------------------------------------------
+# checked argument for the "neutral" mutators: the attributes a mutator writes are never READ by any method reachable
+# from the assembly / solve / result entry points of its class (own class + the classes given as bases)
+# ---------------------------------------------------------------------------------------------------------------------
+ROOTS = ("Construct_local_matrix_system", "Assembly", "Get_K_C_M_F", "Solve", "Result", "Results_dict_Energy",
+         "_Solver_Solve_problemType", "_Solver_Apply_Neumann", "_Solver_Apply_Dirichlet", "_Solver_Solve_Newton_Raphson",
+         "Calc_Energy", "Calc_Reaction")
+
+
+def _attr_name(node, selfname):
+    """'X' for the expression self.X (private names kept as written: __X)"""
+    if isinstance(node, ast.Attribute) and isinstance(node.value, ast.Name) and node.value.id == selfname:
+        return node.attr
+    return None
+
+
+def written_attrs(cls, mname):
+    """attributes of self assigned by the mutator (setter 'name (setter)' or method), transitively through same-class
+    helper calls and same-class property setters"""
+    funcs = [m for m in cls.body if isinstance(m, ast.FunctionDef)]
+    setters = {m.name: m for m in funcs if _is_setter(m)}
+    methods = {m.name: m for m in funcs if not _is_setter(m)}
+    start = setters.get(mname[:-len(" (setter)")]) if mname.endswith(" (setter)") else methods.get(mname)
+    out, seen, todo = set(), set(), [start] if start is not None else []
+    while todo:
+        fn = todo.pop()
+        if id(fn) in seen:
+            continue
+        seen.add(id(fn))
+        selfname = fn.args.args[0].arg if fn.args.args else "self"
+        for n in ast.walk(fn):
+            tgts = n.targets if isinstance(n, ast.Assign) else [n.target] if isinstance(n, (ast.AugAssign, ast.AnnAssign)) else []
+            for t in tgts:
+                base = t
+                while isinstance(base, ast.Subscript):
+                    base = base.value
+                a = _attr_name(base, selfname)
+                if a is not None:
+                    if a in setters and not isinstance(t, ast.Subscript):
+                        todo.append(setters[a])
+                    else:
+                        out.add(a)
+            if isinstance(n, ast.Call) and isinstance(n.func, ast.Attribute):
+                a = _attr_name(n.func, selfname)
+                if a is not None and a in methods:
+                    todo.append(methods[a])
+    return out
+
+
+def read_attrs_from_roots(classes, extra_roots=(), roots=ROOTS):
+    """attributes of self READ (Load context) by any method reachable from ROOTS through self-calls and property
+    getters, over the given list of ClassDef (subclass first, then its bases)"""
+    table = {}
+    getters = {}
+    for cls in reversed(classes):            # subclass definitions override the bases'
+        for m in cls.body:
+            if isinstance(m, ast.FunctionDef):
+                if any(_src(d) == "property" for d in m.decorator_list):
+                    getters[m.name] = m
+                elif not _is_setter(m):
+                    table[m.name] = m
+    reads, seen = set(), set()
+    todo = [table[r] for r in roots if r in table] + [table[r] for r in extra_roots if r in table] + [getters[r] for r in extra_roots if r in getters]
+    reads |= {r for r in extra_roots if r in getters}
+    while todo:
+        fn = todo.pop()
+        if id(fn) in seen:
+            continue
+        seen.add(id(fn))
+        selfname = fn.args.args[0].arg if fn.args.args else "self"
+        for n in ast.walk(fn):
+            if isinstance(n, ast.Attribute) and isinstance(n.ctx, ast.Load):
+                a = _attr_name(n, selfname)
+                if a is None:
+                    continue
+                if a in table:
+                    todo.append(table[a])
+                elif a in getters:
+                    todo.append(getters[a])
+                    reads.add(a)
+                else:
+                    reads.add(a)
+    return reads
+
+
+_ORDER = ["unknown", "unread", "read-outside-assembly", "read-in-newton-assembly", "read-in-cached-assembly"]
+
+
+def neutral_argument(repo, cshort, mname):
+    """for a mutator defined on _Simu the argument must hold in EVERY simulation subclass: the worst case is returned"""
+    if cshort != "_Simu":
+        return _neutral_argument(repo, cshort, mname, None)
+    root = os.path.join(repo, "EasyFEA", "Simulations")
+    simu = _classes(os.path.join(root, "_simu.py")).get("_Simu")
+    worst, wattrs = _neutral_argument(repo, "_Simu", mname, None)
+    for fn in sorted(os.listdir(root)):
+        if fn.endswith(".py") and fn != "_simu.py":
+            try:
+                cl = _classes(os.path.join(root, fn))
+            except SyntaxError:
+                continue
+            for sub in cl.values():
+                if any(_src(b).split(".")[-1] == "_Simu" for b in sub.bases):
+                    got, attrs = _neutral_argument(repo, "_Simu", mname, sub)
+                    if _ORDER.index(got) > _ORDER.index(worst):
+                        worst, wattrs = got, attrs
+    return worst, wattrs
+
+
+def _neutral_argument(repo, cshort, mname, subclass):
+    """('unread', written) when no attribute the mutator writes is read from the assembly/solve/result entry points of its
+    class hierarchy; ('read', written & read) otherwise; ('unknown', ...) when the class / mutator is not found"""
+    root = os.path.join(repo, "EasyFEA")
+    found = None
+    simu_cls = _classes(os.path.join(root, "Simulations", "_simu.py")).get("_Simu")
+    for dp, _, fs in os.walk(root):
+        for fn in fs:
+            if fn.endswith(".py"):
+                try:
+                    cl = _classes(os.path.join(dp, fn))
+                except SyntaxError:
+                    continue
+                if cshort in cl:
+                    found = cl[cshort]
+    if found is None:
+        return "unknown", set()
+    w = written_attrs(found, mname)
+    is_simu = cshort == "_Simu" or any(_src(b).split(".")[-1] == "_Simu" for b in found.bases)
+    if is_simu:
+        chain = [found] + ([simu_cls] if simu_cls is not None and cshort != "_Simu" else [])
+        if subclass is not None:
+            chain = [subclass] + chain
+        # the solvers are module-level functions taking the simulation: what they read through `simu.<name>` is a root too
+        ext = set()
+        try:
+            tree = ast.parse(open(os.path.join(root, "Simulations", "Solvers.py")).read())
+            for n in ast.walk(tree):
+                if isinstance(n, ast.Attribute) and isinstance(n.value, ast.Name) and n.value.id == "simu" and isinstance(n.ctx, ast.Load):
+                    ext.add(n.attr)
+        except (OSError, SyntaxError):
+            pass
+        r = read_attrs_from_roots(chain, extra_roots=ext)
+        inter = {a for a in w if a in r}
+        if not inter:
+            return "unread", w
+        # read somewhere: is it read by the ASSEMBLY (whose output the needUpdate flag caches)?
+        r_asm = read_attrs_from_roots(chain, roots=("Construct_local_matrix_system", "Assembly"))
+        inter_asm = {a for a in w if a in r_asm}
+        if not inter_asm:
+            return "read-outside-assembly", inter
+        ini = next((m for c_ in chain[:1] for m in c_.body if isinstance(m, ast.FunctionDef) and m.name == "__init__"), None)
+        newton = ini is not None and any(isinstance(n, ast.Call) and isinstance(n.func, ast.Attribute) and n.func.attr == "_Solver_Set_Newton_Raphson_Algorithm" for n in ast.walk(ini))
+        return ("read-in-newton-assembly" if newton else "read-in-cached-assembly"), inter_asm
+    else:
+        # a model / state class: any other method may be called by the assembly -> every method but the mutator is a root
+        r = set()
+        base = mname[:-len(" (setter)")] if mname.endswith(" (setter)") else mname
+        for m in found.body:
+            if isinstance(m, ast.FunctionDef) and not (m.name == base and (_is_setter(m) == mname.endswith(" (setter)"))):
+                selfname = m.args.args[0].arg if m.args.args else "self"
+                for n in ast.walk(m):
+                    if isinstance(n, ast.Attribute) and isinstance(n.ctx, ast.Load) and _attr_name(n, selfname) is not None:
+                        r.add(n.attr)
+        # private cache attributes read back only through their own property are followed one level
+        for m in found.body:
+            if isinstance(m, ast.FunctionDef) and any(_src(d) == "property" for d in m.decorator_list) and m.name in r:
+                selfname = m.args.args[0].arg
+                for n in ast.walk(m):
+                    if isinstance(n, ast.Attribute) and isinstance(n.ctx, ast.Load) and _attr_name(n, selfname) is not None:
+                        r.add(n.attr)
+    inter = {a for a in w if a in r}
+    return ("unread" if not inter else "model-state-read-by-its-methods"), (w if not inter else inter)
